@@ -209,17 +209,22 @@ register('C12',
          'DESIGN.md §7 C12')
 
 register('C14',
-         'PARTIAL. Coq theorems about the model generator `gen` (mirror of the PL/pgSQL templates) for every configuration: INSERT column '
-         'list and value list of all three upserts are aligned and complete, the excluded ARRAY is exactly the configured excluded set, '
-         'nothing is written without an active transaction or for a no-op update, and for the first event on a row within a '
-         'transaction (no validity) the appended row is exactly the object path\'s row (values, operation type, flags). The tie to the '
-         'code is a translator re-run on every check: the text emitted by CreateTriggerFunctionSQL for random configurations is parsed '
-         '(fail-closed) into the trigger AST, compared structurally with `gen cfg` inside Coq, and the PARSED program is executed on '
-         'random event sequences against the object-path specification. sync_trigger is run through a stub session on real tables. '
-         'The full statement (several events on one row in a transaction) is refuted by two recorded open findings.',
-         COMMON_NOTE + 'No PostgreSQL in the sandbox: texec, the hand-written semantics of the generated statement forms, is in the trusted '
-         'base; the findings on the trigger text cannot be validated against a server and stay open.',
-         'Coq proof about the generator + fail-closed parser of the generated PL/pgSQL + vm_compute structural comparison and execution of the parsed program',
+         'FULL over the model, PARTIAL only for the missing PostgreSQL server. Coq theorem C14_trigger_program_equals_object_path: for '
+         'every configuration with distinct column names and every sequence of row events grouped into transactions (several events on '
+         'one row within one transaction, deletes and re-inserts, validity on/off, modification tracking on/off, excluded columns, '
+         'events without an active transaction) the generated trigger program (gen + texec) leaves exactly the version rows of the '
+         'object-based path (spec_run), by an inductive invariant (C14_one_event); its hypotheses are decidable and evaluated on every '
+         'generated sequence. Further theorems: column/value alignment and completeness of the three upserts, exact excluded ARRAY, '
+         'nothing without a transaction / for a no-op update. Tie to the code on every run: the text emitted by '
+         'CreateTriggerFunctionSQL for random configurations is parsed (fail-closed) into the trigger AST and compared structurally with '
+         '`gen cfg`; the parsed program is executed by texec on random multi-event sequences and compared (a) with the object-path '
+         'specification and (b) with SQLite EXECUTING the generated SQL statements on the real version table (CTE upsert as '
+         'UPDATE-then-INSERT, NEW/OLD as bind parameters). sync_trigger is run through a stub session on real tables. Two genuine '
+         'defects that refuted the full statement were repaired in /repo (validity self-close, DELETE arm).',
+         COMMON_NOTE + 'No PostgreSQL in the sandbox: texec is validated against SQLite executing the generated statements; differences '
+         'between SQLite and PostgreSQL on these statement forms (UPDATE/INSERT with equality predicates, MIN subquery, IS DISTINCT '
+         'FROM ~ IS NOT, boolean OR), the PL/pgSQL control flow and the hstore no-op guard remain trusted.',
+         'Coq proof (inductive invariant over event sequences) + fail-closed parser of the generated PL/pgSQL + vm_compute execution of the parsed program + execution of the generated SQL by SQLite',
          'DESIGN.md §7 C14')
 
 register('C18',
